@@ -143,6 +143,33 @@ Theorem C03_peer_view_refuted : ~ C03_peer_view_full.
 Proof. exact peer_view_refuted. Qed.
 Print Assumptions C03_peer_view_refuted.
 
+(* The peer's view does not depend on the allocation state at the moment it maps.  The allocator
+   (bufferList.pop / push, on either side) changes only the size, head and tail words of the list
+   headers (state_cell: the addresses of those three words of every class).  For EVERY memory m2 that
+   differs from what the creator wrote at most in those words — any number of allocations and
+   releases, any values at all — mappingBufferManager yields the creator's classes with unchanged
+   header offset, region offset, region length, cap and capPerBuffer (restate m2 c = c with
+   size/head/tail re-read from m2): every extent is derived from the cap and capPerBuffer words. *)
+Theorem C03_peer_view_independent_of_allocation_state : forall pairs memLen m0 cs m',
+  config_ok memLen pairs -> create_bm pairs memLen m0 = Ok (cs, m') ->
+  forall m2, (forall a, ~ state_cell cs a -> m2 a = m' a) ->
+  map_bm memLen m2 = Ok (map (restate m2) cs) /\
+  Forall (fun c => cl_off (restate m2 c) = cl_off c /\ cl_regionOff (restate m2 c) = cl_regionOff c /\
+                   cl_regionLen (restate m2 c) = cl_regionLen c /\ cl_cap (restate m2 c) = cl_cap c /\
+                   cl_capPerBuffer (restate m2 c) = cl_capPerBuffer c) cs.
+Proof. exact peer_view_independent_config_geom. Qed.
+Print Assumptions C03_peer_view_independent_of_allocation_state.
+
+(* the same for arbitrary uint32 percentages under G1, G3 *)
+Theorem C03_peer_view_independent_of_allocation_state_partial : forall pairs memLen m0 cs m',
+  0 <= memLen -> pairs_ok memLen pairs ->
+  memLen + c_bufferListHeaderSize < 4294967296 -> Z.of_nat (length pairs) < 65536 ->
+  create_bm pairs memLen m0 = Ok (cs, m') ->
+  forall m2, (forall a, ~ state_cell cs a -> m2 a = m' a) ->
+  map_bm memLen m2 = Ok (map (restate m2) cs).
+Proof. exact peer_view_independent_partial. Qed.
+Print Assumptions C03_peer_view_independent_of_allocation_state_partial.
+
 (* the offsets at which the mapping side reads the geometric header fields are the offsets at which
    the creating side writes them (both generated from the Go source); fields do not overlap *)
 Theorem C03_offsets_agree :
